@@ -22,7 +22,7 @@
 //!  "arc"   ArchiveCache (+ CdnArchiveCache) over MemoryCache<ArchiveRangeKey>
 //!            putr{a,o,l,n} getr{a,o,l} isc{a,o,l} ovl{a,o,l} getf{a,o,l} meta{a} tick probe   (o = number, -1 = u64::MAX)
 //!  "res"   NgdpResolutionCache (+ CdnNgdpResolutionCache)
-//!            croot{r,as} res{r,p} cenc{e,as} rese{e,c} chain{r,e,p} fb{r,p}
+//!            croot{r,as} res{r,p} cenc{e,as} rese{e,c} chain{r,e,p} fb{r,p} fcfg{h} (CdnClient::fetch_config)
 //!  "inv"   pure decisions: sinv{strat,ent,size,bytes} gttl{strat} wval{en,maxe}
 //!
 //! Events: {"op":"new","kind":..,"cfg":..,"keys":..,...,"res":{"ok":true}} starts a run, then one event per operation
@@ -739,10 +739,10 @@ fn run_res(prog: &Value, cfg: &Value, out: &Emit) {
             "rese" => some_e(rt.block_on(nc.resolve_content_to_encoding(ekey(e), ck(op["c"].as_str().unwrap())))),
             "chain" => some_e(rt.block_on(nc.resolve_full_chain(rkey(r), ekey(e), &p))),
             "fb" => some_c(rt.block_on(fbc.resolve_with_fallback(rkey(r), &p))),
-            "tick" => {
-                std::thread::sleep(TICK);
-                json!({"ok": true})
-            }
+            "fcfg" => match rt.block_on(cdn.fetch_config(op["h"].as_str().unwrap())) {
+                Ok(b) => json!({"hit": true, "n": b.len(), "h": md5hex(&b)}),
+                Err(e) => err_class(&e),
+            },
             other => panic!("driver: unknown res op {other}"),
         });
         match guarded(|| (nc.metrics(), cdn_books(&cdn))) {
